@@ -230,4 +230,7 @@ func runC37(c *core.Ctx) {
 			"no strict comparison `rating > band.GetMaxThreshold()` (or its complement) selects the band: a rating equal to a threshold falls into the wrong band or no comparison is made")
 	}
 	c.Floor("C37/chance-is-a-configured-band", 2)
+	// the bands are looked up in threshold order: the comparator that sorts them indexes the slice being sorted
+	checkSortComparators(c, "C37/chance-is-a-configured-band", c.P.FuncsOfPkg(pkg))
+	c.Floor("C37/chance-is-a-configured-band", 3)
 }
